@@ -25,7 +25,7 @@ TIERS = {
     "quick": {"runs": 3500, "max_wall": 240, "minimise_s": 25, "chunk": 100},
     "thorough": {"runs": 150000, "max_wall": 3000, "minimise_s": 60, "chunk": 500},
 }
-FAULT_KINDS = ["read error", "user disconnect", "stop", "read error + reconnect", "peer close (tcp)", "peer reset (tcp)", "slow sendall (send buffer nearly full, tcp)", "write that stalls while hundreds of commands pile up", "stalled pump thread (descheduled 0.15-0.6 s with a command in hand)"]
+FAULT_KINDS = ["read error", "user disconnect", "stop", "read error + reconnect", "peer close (tcp)", "peer reset (tcp)", "slow sendall (send buffer nearly full, tcp)", "write that stalls while hundreds of commands pile up", "stalled pump thread (descheduled 0.15-0.6 s with a command in hand)", "disconnect()/stop() at the moment the pump is inside a successful write"]
 REAL = ["mysensors.transport", "mysensors.task (SyncTasks._poll_queue)", "mysensors.gateway_serial.sync_connect", "mysensors.gateway_tcp (TCPTransport, sync_connect)",
         "serial.threaded.ReaderThread", "handlers for the commands"]
 STUBS = ["thread scheduling (baton + sys.settrace line pre-emption)", "threading.Lock/Event (SimLock/SimEvent)", "serial port / socket / select", "clock"]
@@ -38,7 +38,7 @@ WINDOW_NAMES = {"send", "write", "close", "stop", "run", "connection_lost", "_co
                 # where the pump drains a sleeping node's queue and where controller threads append to it
                 "handle_smartsleep", "_route_message", "is_sensor", "_connect_once"}
 WINDOW_FILES = ("transport.py", "task.py", "threaded.py", "gateway_tcp.py", "gateway_serial.py", "handler.py", "__init__.py")
-EVENTS_SERIAL = ["read_error", "disconnect", "stop", "read_error_reconnect", "both_errors", "write_error_stop", "none"]
+EVENTS_SERIAL = ["read_error", "disconnect", "stop", "read_error_reconnect", "both_errors", "write_error_stop", "disconnect_at_write", "stop_at_write", "none"]
 EVENTS_TCP = EVENTS_SERIAL + ["peer_reset", "peer_eof"]
 
 
@@ -90,7 +90,7 @@ def gen(rng, tier, index):
                     "n_cmds": rng.randint(1, 6) if scenario != "F" else rng.choice([40, 90, 130]),
                     "producers": rng.randint(2, 4) if scenario in ("B", "S") else (3 if scenario == "F" else 1), "gaps": [rng.choice([0, 0, 0.005, 0.02, 0.03]) for _ in range(8)],
                     "event_delay": rng.choice([0, 0, 0.001, 0.01, 0.02, 0.0205, 0.04]), "sched": sched,
-                    "slow_send": flavour == "tcp" and rng.random() < 0.4, "long_cmds": scenario != "F" and rng.random() < 0.4}}
+                    "slow_send": flavour == "tcp" and rng.random() < 0.4, "at_write_horizon": rng.choice([3, 6, 12]), "long_cmds": scenario != "F" and rng.random() < 0.4}}
 
 
 def _vio(cls, detail, **sig):
@@ -166,6 +166,24 @@ def run(case):
                     else:
                         conn0.write_exc = None
                         probes["write_error_stop_not_fired"] = 1
+                    return
+                if event in ("disconnect_at_write", "stop_at_write"):
+                    # the application tears the link down at the very moment the pump is inside a (successful) write: whatever
+                    # the pump does with the port right AFTER the write (flush, bookkeeping) meets a closed one
+                    seen = kernel.SimEvent()
+
+                    def on_write(conn, _data):
+                        if conn is conn0 and not seen.is_set():
+                            sim.pct_arm(horizon=cfg.get("at_write_horizon", 8))
+                            seen.set()
+
+                    world.device.write_hook = on_write
+                    if seen.wait(2.0):
+                        probes["teardown_at_a_write"] = 1
+                        if event == "stop_at_write":
+                            gateway.stop()
+                        else:
+                            gateway.tasks.transport.disconnect()
                     return
                 if event in ("read_error", "read_error_reconnect", "both_errors"):
                     exc = _real_serial.SerialException("device gone") if cfg["flavour"] == "serial" else OSError(5, "Input/output error")
